@@ -15,7 +15,7 @@ func init() {
 		Run: c13,
 		Level: "Structural necessary conditions of 'a drop removes what was named for every read': every function of the series index that puts ids parsed from index rows into a result set removes or skips the deleted ids itself or is filtered by a named, checked caller; series counts consult the deleted set; the iterator entry point installs the deleted set before it searches; " +
 			"a failed index search during DROP SERIES is reported (no error variable is confused); drop-measurement ordering (flush with the deleting mark set, then delete files; C01.R7); every catalogue accessor that hands out a database, retention policy or measurement object tests the mark-deleted flag or is a frozen administrative accessor; a re-created measurement takes a new version while the old one is marked. " +
-			"NOT decided: that all other data is unchanged, physical deletion after restart, value-level equality of listings.",
+			"the tag-value listing jumps over the remaining index rows of a value only after the value was emitted; DROP SERIES records the ids found through a shard's index with that shard, for every shard of the partition; NOT decided: that all other data is unchanged, physical deletion after restart, value-level equality of listings.",
 		Assumptions: commonAssumptions,
 		Technique:   "static analysis: sibling coverage of a filter obligation over all producers (call index), wrong-error-variable pattern on go/cfg, accessor table with field-read obligations",
 		Rules:       "C13.R1 R2 R3 R4 R5 R6 R7 R8",
